@@ -148,6 +148,47 @@ def judge(fc, out, ans, delivered, op=None, a=None):
     return same, detail
 
 
+def later_calls(fc, backend, faults, op, a):
+    """What a reader answers AFTER one of its header loads met a fault: on a second reader given the same faults, the faulted call, then
+    (storage healthy) headers and traces near the end of the file.  Each must raise or be what a reader that never met a fault returns -
+    a load that failed half way must not leave arrays behind that later calls mix with arrays loaded differently.  -> (ok, detail) | None"""
+    if not op.startswith('hdr:') or not fc.stored:
+        return None
+    tc = readcalls.tracecount(fc.F)
+    mask = fc.F.get('mask') or []
+    # every stored trace from the first hole on (a padded array and a hole-filtered one agree wherever the line number happens to repeat)
+    probes = list(range(list(mask).index(0), tc))[:40] if 0 in mask else sorted({tc - 1, max(0, tc - 2), min(tc - 1, 1)})
+
+    def ask(r):
+        out = []
+        for t in probes:
+            o = readcalls.invoke(r, 'gen_trace_header', [t])
+            out.append(o if o[0] != 'header' else ('header', sorted(o[1].items())))
+        o = readcalls.invoke(r, 'get_trace', [tc - 1, readcalls.NONE, readcalls.NONE])
+        out.append(o if o[0] == 'raise' else ('value', o[1].tobytes()))
+        return out
+    r0, h0 = fresh(fc, backend, {})
+    r1, h1 = fresh(fc, backend, faults)
+    try:
+        with env.quiet():
+            want = ask(r0)
+            invoke(r1, op, a, fc)
+            if not h1.delivered:
+                return None
+            h1.faults = {}
+            got = ask(r1)
+    finally:
+        for r in (r0, r1):
+            try:
+                with env.quiet():
+                    r.close()
+            except Exception:
+                pass
+    names = [f'gen_trace_header({t})' for t in probes] + [f'get_trace({tc - 1})']
+    bad = [n for n, g, w in zip(names, got, want) if g[0] != 'raise' and g != w]
+    return (not bad), (f'after the faulted {op}: {bad} differ from a reader that met no fault' if bad else 'raise or true')
+
+
 def _fault_worker(item):
     fi, backend, ci, faults = item
     fc, calls, answers = par.G['files'][fi]
@@ -165,6 +206,7 @@ def _fault_worker(item):
             with env.quiet():
                 out2 = invoke(r, op, a, fc)
             retry = judge(fc, out2, answers[ci], [], op, a)
+        later = later_calls(fc, backend, faults, op, a) if delivered else None
         with env.quiet():
             try:
                 r.close()
@@ -173,7 +215,7 @@ def _fault_worker(item):
     except BaseException as e:        # the open itself is fault free; anything here is a harness problem
         return item, None, f'harness: {type(e).__name__}: {e}', []
     ok, detail = judge(fc, out, answers[ci], delivered, op, a)
-    return item, ok, detail, delivered, retry
+    return item, ok, detail, delivered, retry, later
 
 
 def wide_slices(run):
@@ -190,8 +232,8 @@ def run(run):
     quick = run.tier == 'quick'
     run.mc('MC_Reader', f'MC_Reader_C07_{run.tier}' if not quick else 'MC_Reader_C17_quick')
     fx = inputs.fixture_sgz()
-    keep = ('small_8bit.', 'small-irregular', 'small_8bit-8x8', 'small-2d') if quick else \
-        ('small_8bit.', 'small-irregular', 'small_8bit-8x8', 'small-2d', 'small_2bit-64x64', 'small_4bit', 'padding_6x7')
+    keep = ('small_8bit.', 'small_hole', 'small_8bit-8x8', 'small-2d') if quick else \
+        ('small_8bit.', 'small-irregular', 'small_hole', 'small_8bit-8x8', 'small-2d', 'small_2bit-64x64', 'small_4bit', 'padding_6x7')
     fx = [f for f in fx if any(k in f for k in keep)]
     adv = [c for c in c02.written_files(run, 'quick') if 'b(16, 16, 4)' in c.label]
     cases = session.load_files([session.FileCase(p) for p in fx] + adv + c02.written_2d(run, 'quick')[:1] + wide_slices(run), run)
@@ -252,6 +294,9 @@ def run(run):
             run.check(ok, f'C17.fault-surfaces[{op}]', dict(case, kinds=sorted(set(faults.values()))), detail, 'raises')
             if retry is not None:
                 run.check(retry[0], f'C17.retry-after-fault[{op}]', dict(case, kinds=sorted(set(faults.values()))), retry[1], 'the true data once the storage is healthy')
+            later = res[5] if (not isinstance(res, par.Crash) and len(res) > 5) else None
+            if later is not None:
+                run.check(later[0], f'C17.later-calls-after-fault[{op}]', dict(case, kinds=sorted(set(faults.values()))), later[1], 'raise, or what a reader that met no fault returns')
         else:
             run.check(ok, f'C17.no-fault-true[{op}]', case, detail, 'ideal')
     # ---- completion orders of the concurrent blob reads
@@ -356,6 +401,8 @@ def replay(run, rep):
         with env.quiet():
             out = invoke(r, case['op'], case['args'], fc)
         ok, detail = judge(fc, out, ans, list(h.delivered), case['op'], case['args'])
+        if rep['clause'].startswith('C17.later-calls-after-fault'):
+            ok, detail = later_calls(fc, case['backend'], {int(k): v for k, v in case['faults'].items()}, case['op'], case['args']) or (True, 'no fault delivered')
         if rep['clause'].startswith('C17.retry-after-fault'):
             h.faults = {}
             h.delivered = []
